@@ -332,7 +332,7 @@ class FnA:
             return e
         if not rd:
             return ("unknown", "undef:_%d" % l)
-        sites = tuple(sorted((d if d == "entry" else (d[0], d[1])) for d in rd if d is not None))
+        sites = tuple(sorted(((d if d == "entry" else (d[0], d[1])) for d in rd if d is not None), key=repr))
         return ("var", l, sites)
 
     def def_values(self, l, point, depth=0):
@@ -567,6 +567,9 @@ def show(e, names=None):
             return names[e[1]]
         return "arg%d" % e[1]
     if t == "upvar":
+        up = names.get("__upvars__") if names else None
+        if up and e[1] in up:
+            return up[e[1]]
         return "upvar%d" % e[1]
     if t == "sym":
         return e[1]
